@@ -6,7 +6,9 @@ relational for the range-expansion / fitting heuristics: the Lean monitor `insid
 replace_with emit for ranges inside an isolating node, and each emitted step is applied by the model
 too; lift targets and approved splits must stay inside.
 `delete_range`'s widened range is tied exactly to lean/PM/RangeOps.lean (harness/rangeplan.py), for which Props/C18.lean
-proves that it stays inside an isolating node containing both ends.
+proves that it stays inside an isolating node containing both ends; likewise every range `replace_range` hands to
+`Transform.replace` (lean/PM/ReplaceRange.lean, `replaceRange_inside_isolating`) and the pair `replace_range_with` passes on
+(`replaceRangeWith_target`; insert_point may move it outside: open finding C18-insert-point-outside).
 Search: tokens before the node's opening and after its closing unchanged, the node itself (type,
 attributes, marks) still there — for all ranges inside isolating nodes incl. their whole content.
 """
@@ -175,6 +177,20 @@ def run(ctx):
                         args = [f, t, n2]
                     if any(x is None for x in args):
                         continue
+                    # replace_range as a whole (lean/PM/ReplaceRange.lean, tied exactly; Props/C18.lean proves
+                    # `replaceRange_inside_isolating`): every range it hands to Transform.replace stays within the node's content
+                    rr_slice = args[2] if name in ("replace_range", "replace") else Slice.empty if name in ("delete_range", "delete") \
+                        else Slice(Fragment.from_(n2), 0, 0)
+                    plan = rangeplan.tie_replace_range(ctx, info, d, f, f if name == "insert" else t, rr_slice, reqs, metas, extra={"iso": [a, b]})
+                    if isinstance(plan, list):
+                        for (x, y, _) in ([plan[1]] if plan[0] == "direct" else plan[1]):
+                            if not (a + 1 <= x and y <= b - 1):
+                                ctx.violation("replace_range-crosses", "replace_range hands Transform.replace a range reaching outside the isolating node that contains both ends",
+                                              {"schema": info.name, "doc": d.to_json(), "from": f, "to": t, "iso": [a, b], "slice": rr_slice.to_json(), "call": [x, y]})
+                    if name in ("replace_with", "replace_range_with", "insert"):
+                        # replace_range_with: the pair it passes on is insert_point's answer (which may lie outside the node:
+                        # open finding C18-insert-point-outside, decided by the oracle below) — tied exactly
+                        rangeplan.tie_replace_range_with(ctx, info, d, f, f if name == "insert" else t, n2, reqs, metas, extra={"iso": [a, b]})
                     # the Fitter (lean/PM/Fitter.lean): the step replace_step emits for the request inside the node, exactly
                     if name in ("replace", "replace_range"):
                         rangeplan.tie_replace_step(ctx, info, d, f, t, args[2], reqs, metas)
